@@ -76,7 +76,8 @@ def build():
             self.log.append((self.addr, bytes(pdu.pduData)))
 
         def send(self, octets, dst=DEVICE):
-            self.request(PDU(octets, destination=Address(dst)))
+            """dst None = link-level (local) broadcast"""
+            self.request(PDU(octets, destination=LocalBroadcast() if dst is None else Address(dst)))
 
     class Device:
         def __init__(self, max_apdu=1024, seg='segmentedBoth'):
@@ -121,13 +122,14 @@ def build():
         def inject(self, frames, settle=None):
             """all frames in the same instant; then run until nothing is left
             (SSM timers included), or for `settle` seconds.  A frame is octets (sent by
-            station PEER) or a pair (sending station, octets)."""
+            station PEER), a pair (sending station, octets) or a triple (station, octets, broadcast)."""
             n0 = len(self.peer.received)
             w0 = len(self.wire)
             e0 = len(self.vt.errors)
             for f in frames:
                 if isinstance(f, tuple):
-                    self.peers[f[0]].send(f[1])
+                    # (station, octets) or (station, octets, True) for a link-level broadcast
+                    self.peers[f[0]].send(f[1], None if (len(f) > 2 and f[2]) else DEVICE)
                 else:
                     self.peer.send(f)
             ok = self.vt.run(until=(self.vt.now + settle) if settle else None, max_loops=20000)
